@@ -107,9 +107,9 @@ struct Scn {
     ops: Vec<(TOp, &'static str)>,
 }
 
-const KINDS: [&str; 9] = [
+const KINDS: [&str; 10] = [
     "random", "forward", "backward", "repeat_same_time", "boundary", "near_boundary", "beyond_end",
-    "astronomical", "op",
+    "astronomical", "negative", "op",
 ];
 
 fn kind_static(s: &str) -> &'static str {
@@ -280,6 +280,7 @@ fn generate(rng: &mut Rng, property: &str, deep: bool) -> Scn {
                     }
                 }
             }
+            3 if rng.chance(0.3) => (-(rng.unit() as f32) * span, "negative"),
             3 => (span * (1.0 + 10.0 * rng.unit() as f32), "beyond_end"),
             4 if extreme => (
                 *rng.pick(&[1e10f32, 1e19, 1e20, 1e30, f32::MAX, f32::MIN_POSITIVE, 1e-30]),
@@ -291,7 +292,7 @@ fn generate(rng: &mut Rng, property: &str, deep: bool) -> Scn {
                 _ => ((rng.unit() as f32) * span, "random"),
             },
         };
-        let t = if t.is_finite() && t >= 0.0 { t } else { 0.0 };
+        let t = if t.is_finite() { t } else { 0.0 };
         last_t = t;
         ops.push((
             TOp::Update {
